@@ -378,25 +378,50 @@ func (r *FeedReader) ReadPage(h *Hub, m *Model, limit int) *Violation {
 		return viol("C02", "reader", "error", "GetChanges(%s,%d,%d,%v): %v", r.DS, r.Token, limit, r.Latest, err)
 	}
 	got := canonList(h, c.Entities)
-	var exp []string
-	idx := r.Idx
-	for idx < len(d.Versions) {
-		if !r.Latest || d.IsLatest(idx) {
-			exp = append(exp, d.Versions[idx].Str)
-		}
-		idx++
-		if limit > 0 && len(exp) == limit {
-			break
-		}
-	}
 	kind := "full"
 	if r.Latest {
 		kind = "latestOnly"
 	}
-	if i := firstDiff(exp, got); i >= 0 {
-		return viol("C02", "reader", kind+":page:"+classifyFeedMismatch(exp, got),
-			"reader on %s (%s) token %d limit %d at feed index %d: page differs at %d: got %s want %s (got %d want %d)",
-			r.DS, kind, r.Token, limit, r.Idx, i, at(got, i), at(exp, i), len(got), len(exp))
+	// The property fixes the concatenation of the pages, not their size: every returned entry must
+	// be the next feed entry the reader has not seen yet (for latest-only: the next entry that is
+	// the newest version of its entity, older versions in between are skipped), and an empty page
+	// means there is nothing (latest) left.
+	idx := r.Idx
+	for gi, g := range got {
+		for r.Latest && idx < len(d.Versions) && !d.IsLatest(idx) {
+			idx++
+		}
+		if idx >= len(d.Versions) {
+			return viol("C02", "reader", kind+":page:extra-entry", "reader on %s (%s) token %d limit %d at feed index %d: entry %d of the page (%s) is beyond the end of the feed (%d versions)",
+				r.DS, kind, r.Token, limit, r.Idx, gi, g, len(d.Versions))
+		}
+		if d.Versions[idx].Str != g {
+			cls := "wrong-entry"
+			for j := idx + 1; j < len(d.Versions); j++ {
+				if d.Versions[j].Str == g && (!r.Latest || d.IsLatest(j)) {
+					cls = "skipped-entry"
+					break
+				}
+			}
+			for j := 0; j < idx && cls == "wrong-entry"; j++ {
+				if d.Versions[j].Str == g {
+					cls = "repeated-entry"
+				}
+			}
+			return viol("C02", "reader", kind+":page:"+cls, "reader on %s (%s) token %d limit %d: entry %d of the page is %s, the next unread feed entry (index %d) is %s",
+				r.DS, kind, r.Token, limit, gi, g, idx, d.Versions[idx].Str)
+		}
+		idx++
+	}
+	if len(got) == 0 || (limit > 0 && len(got) < limit) || limit == 0 {
+		// the page ended because the feed ended: nothing (latest) may be left unread
+		for j := idx; j < len(d.Versions); j++ {
+			if !r.Latest || d.IsLatest(j) {
+				return viol("C02", "reader", kind+":page:missing-entry", "reader on %s (%s) token %d limit %d returned %d entries and stopped at feed index %d although entry %d (%s) is unread",
+					r.DS, kind, r.Token, limit, len(got), idx, j, d.Versions[j].Str)
+			}
+		}
+		idx = len(d.Versions)
 	}
 	if c.NextToken < r.Token {
 		return viol("C02", "reader", kind+":token-regressed", "reader on %s: token went from %d to %d", r.DS, r.Token, c.NextToken)
